@@ -603,7 +603,20 @@ func originPredicateCheck(c *Ctx, fn *ssa.Function, origin *ssa.Parameter, depth
 			return false, "block " + b.String() + " is reachable without a whitelisted condition"
 		}
 		reason := ""
-		for _, pr := range b.Preds {
+		known := union(facts[b], extra)
+		for k, pr := range b.Preds {
+			// an edge on which a boolean phi of this block would have the value known to be wrong was not taken
+			infeasible := false
+			for f := range known {
+				if ph, ok := f.Cond.(*ssa.Phi); ok && ph.Block() == b && k < len(ph.Edges) {
+					if v, isC := constBool(ph.Edges[k]); isC && v != f.Pol {
+						infeasible = true
+					}
+				}
+			}
+			if infeasible {
+				continue
+			}
 			ok, why := justifiedBlock(pr, union(extra, edgeFacts(pr, b)), depth+1)
 			if !ok {
 				return false, why
@@ -646,7 +659,6 @@ func originPredicateCheck(c *Ctx, fn *ssa.Function, origin *ssa.Parameter, depth
 			if isWholeEq(condFact{x, true}) {
 				return true, "whole-string comparison"
 			}
-			return false, "computed answer " + x.String()
 		case *ssa.Phi:
 			if visiting[v] {
 				return true, ""
@@ -662,6 +674,18 @@ func originPredicateCheck(c *Ctx, fn *ssa.Function, origin *ssa.Parameter, depth
 				reason = why
 			}
 			return true, reason
+		}
+		// any other computed answer: it is 'allowed' exactly where the value is true
+		if bt, ok := v.Type().Underlying().(*types.Basic); ok && bt.Kind() == types.Bool {
+			m := map[condFact]bool{}
+			addCondFacts(m, v, true)
+			deriveFacts(m)
+			if ok, why := justifiedBlock(at, union(extra, m), 0); ok {
+				if needEmptyCheck && !emptyRefusedIn(union(facts[at], extra, facts[r.Block()])) {
+					return false, "'allowed' can be answered for an empty origin"
+				}
+				return true, why
+			}
 		}
 		return false, "cannot justify " + v.String()
 	}
@@ -1259,7 +1283,7 @@ func ruleC09b(c *Ctx) {
 			for _, b := range fn.Blocks {
 				if facts[b][condFact{chk, false}] {
 					for _, g := range grants {
-						if g.Block() == b || reachableBlocks(b.Succs, nil)[g.Block()] {
+						if g.Block() == b || reachableAfter(b, nil)[g.Block()] {
 							bad = true
 						}
 					}
@@ -1371,7 +1395,7 @@ func universalSplitScan(p *Program, h *ssa.Function, param *ssa.Parameter) *ssa.
 	}
 	var header *ssa.BasicBlock
 	for b := check.Block().Idom(); b != nil; b = b.Idom() {
-		if cyc[b] && reachableBlocks(check.Block().Succs, nil)[b] {
+		if cyc[b] && reachableAfter(check.Block(), nil)[b] {
 			if _, ok := b.Instrs[len(b.Instrs)-1].(*ssa.If); ok {
 				header = b
 				break
@@ -1456,7 +1480,7 @@ func behindHeaderLoop(p *Program, fn *ssa.Function, check *ssa.Call, g ssa.Instr
 		return false, "the grant is reachable from inside the header loop without the loop running to exhaustion"
 	}
 	// and the grant must not precede the loop
-	if reachableBlocks(g.Block().Succs, nil)[header] {
+	if reachableAfter(g.Block(), nil)[header] {
 		return false, "the grant is executed before the requested headers are checked"
 	}
 	// a path that bypasses the loop is only taken when no header was requested
@@ -1561,10 +1585,11 @@ func ruleC09c(c *Ctx) {
 			call, ok := strip(v).(*ssa.Call)
 			return ok && (calleeName(&call.Call) == "strings.ToLower" || calleeName(&call.Call) == "strings.ToUpper")
 		}
-		for _, r := range returnsOf(fn) {
-			b, ok := constBool(r.Results[0])
+		for _, vr := range virtualReturns(fn) {
+			r := vr.Ret
+			b, ok := constBool(vr.Results[0])
 			if !ok {
-				c.undecided(name, "computed answer", p.ipos(r), "cannot justify "+r.Results[0].String())
+				c.undecided(name, "computed answer", p.ipos(r), "cannot justify "+vr.Results[0].String())
 				continue
 			}
 			if !b {
@@ -1602,18 +1627,18 @@ func ruleC09c(c *Ctx) {
 					}
 				}
 			}
-			for f := range facts[r.Block()] {
+			for f := range vr.Facts {
 				check(f)
 			}
 			if just == "" || just[0] == '!' {
 				// every incoming edge individually
-				all := len(r.Block().Preds) > 0
-				for _, pr := range r.Block().Preds {
+				all := len(vr.Block.Preds) > 0
+				for _, pr := range vr.Block.Preds {
 					j0 := just
 					just = ""
 					if iff, ok := pr.Instrs[len(pr.Instrs)-1].(*ssa.If); ok {
 						m := map[condFact]bool{}
-						addCondFacts(m, iff.Cond, pr.Succs[0] == r.Block())
+						addCondFacts(m, iff.Cond, pr.Succs[0] == vr.Block)
 						for f := range m {
 							check(f)
 						}
